@@ -61,7 +61,8 @@ static void c10_case(struct enc* e, uint64_t v) {
   vh_kint("ret", (long long)r);
   vh_kbytes("out", buf, r <= 16 ? r : 0);
   /* decode exactly the bytes written, from an exactly-sized block */
-  unsigned char* ex = malloc(r ? r : 1);
+  unsigned char* exblk;
+  unsigned char* ex = vh_exact_rot(r <= 16 ? r : 0, &exblk); /* start address rotates through all alignments */
   memcpy(ex, buf, r <= 16 ? r : 0);
   vh_ev_clear();
   struct cbor_decoder_result d = cbor_stream_decode(ex, r, &vh_recording_callbacks, NULL);
@@ -73,7 +74,7 @@ static void c10_case(struct enc* e, uint64_t v) {
   vh_kbytes("arg", vh_ev.arg, vh_ev.arglen);
   fputs("}\n", vh_out);
   nlines++;
-  free(ex);
+  free(exblk);
   free(buf);
 }
 
